@@ -6,6 +6,8 @@ import (
 	"os"
 	"os/exec"
 	"path/filepath"
+	"runtime"
+	"runtime/debug"
 	"sort"
 	"strings"
 )
@@ -81,6 +83,17 @@ func runMutants(opts *Options, p *PropInfo, rep *Report) []mutantResult {
 			sub := NewReport(p.ID)
 			sub.config = "mutant:" + name
 			ctx := &Ctx{Unit: map[string]*Unit{}, R: sub, Tier: "quick", Opts: opts}
+			// a mutant's program is needed only for this one run: forget it afterwards
+			// (the generic-findings cache is keyed by unit and would keep every
+			// mutant's SSA alive; ten mutants of the s3/gcs units are > 20 GB)
+			defer func() {
+				for _, u := range ctx.Unit {
+					delete(genCache, u)
+				}
+				ctx.Unit, ctx.U = nil, nil
+				runtime.GC()
+				debug.FreeOSMemory()
+			}()
 			for _, un := range p.Units {
 				u, err := LoadUnit(scratch, un, defaultConfig)
 				if err != nil {
